@@ -57,9 +57,9 @@ def getEv (j : Json) : Except String REv :=
               | {"line":…,"k":"batch","items":[null | {"id":n,"notif":b}]}], "cap":n}`
    (lines absent from the table are junk; `{"reg":"<key>"}` events register a per-request stream; messages carry
    `"key":"<str(id)>"`)
+   With `"sessions":[[events],…]` instead of `"events"`: consecutive connections on one object -> `{"sessions":[obs,…]}`.
    -> `{"delivered":[ids],"offered":[ids],"buffered":[ids],"rejections":n,"alive":b}` -/
 def handle (j : Json) : Except String Json := do
-  let evs ← (← j.getObjValAs? (Array Json) "events").toList.mapM getEv
   let tab ← (← j.getObjValAs? (Array Json) "table").toList.mapM (fun e => do
     let line ← e.getObjValAs? String "line"
     let p ← getParsed e
@@ -72,19 +72,27 @@ def handle (j : Json) : Except String Json := do
       | some e => e.2
       | none => .junk
     key := fun m => m.2 }
-  -- the routing model (per-request streams included); its projection is the reader of `Model/StdioIn`
-  let rp := runP rc ⟨init, []⟩ evs
-  let outs := rp.2.filterMap erase
   let ids (l : List Msg) : Json := Json.arr (l.map (fun m => toJson m.1)).toArray
-  let reqs : List Json := rp.2.filterMap (fun o => match o with
-    | .request k m => some (Json.arr #[Json.str (String.ofList k), toJson m.1])
-    | _ => none)
-  return Json.mkObj [
-    ("delivered", ids (delivered outs)),
-    ("offered", ids (offered outs)),
-    ("buffered", ids (notifBuffer cap outs)),
-    ("rejections", toJson (rejections outs)),
-    ("requests", Json.arr reqs.toArray),
-    ("pending", Json.arr (rp.1.pend.map (fun k => Json.str (String.ofList k))).toArray),
-    ("alive", Json.bool rp.1.st.alive)]
+  let obs (rp : RSt × List (ROut Msg)) : Json :=
+    let outs := rp.2.filterMap erase
+    let reqs : List Json := rp.2.filterMap (fun o => match o with
+      | .request k m => some (Json.arr #[Json.str (String.ofList k), toJson m.1])
+      | _ => none)
+    Json.mkObj [
+      ("delivered", ids (delivered outs)),
+      ("offered", ids (offered outs)),
+      ("buffered", ids (notifBuffer cap outs)),
+      ("rejections", toJson (rejections outs)),
+      ("requests", Json.arr reqs.toArray),
+      ("pending", Json.arr (rp.1.pend.map (fun k => Json.str (String.ofList k))).toArray),
+      ("alive", Json.bool rp.1.st.alive)]
+  -- the routing model (per-request streams included); its projection is the reader of `Model/StdioIn`
+  match j.getObjValAs? (Array Json) "sessions" with
+  | .ok ss =>
+    -- consecutive connections on ONE client / transport object
+    let sess ← ss.toList.mapM (fun s => do (← (fromJson? s : Except String (Array Json))).toList.mapM getEv)
+    return Json.mkObj [("sessions", Json.arr ((runSessionsP rc ⟨init, []⟩ sess).map obs).toArray)]
+  | .error _ =>
+    let evs ← (← j.getObjValAs? (Array Json) "events").toList.mapM getEv
+    return obs (runP rc ⟨init, []⟩ evs)
 end Verif.Drv.StdioIn
